@@ -3,10 +3,13 @@
 //@ module verif_enum_xargs
 //@ harness e_ws_reader kind=enum props=C05 thorough_bound=<<every input of 0..=5 symbols over {a, blank, newline, ', ", backslash, e-acute (2 bytes)} x every way of cutting it into read() chunks>> bound=<<every input of 0..=4 symbols over {a, blank, newline, ', ", backslash, e-acute and a-grave (2 bytes each; 0xA0 is the second byte of a-grave), vertical tab} x every way of cutting it into read() chunks>> label=<<WhitespaceDelimitedArgumentReader yields exactly the arguments of the statement's tokenizer (unquoted blanks/newlines split, quotes literal, backslash quotes one byte, '' is an empty argument, unterminated quote is an error), each marked as ending a line iff a newline terminated it, whatever the read() chunking>>
 //@ harness e_byte_reader kind=enum props=C05,C07 thorough_bound=<<every input of 0..=5 symbols over {a, blank, newline, ', backslash, NUL, e-acute (2 bytes)} x delimiter NUL or newline x every way of cutting it into read() chunks>> bound=<<every input of 0..=4 symbols over {a, blank, newline, ', backslash, NUL, e-acute (2 bytes)} x delimiter NUL or newline x every way of cutting it into read() chunks>> label=<<ByteDelimitedArgumentReader yields exactly the non-empty delimiter-separated fields, byte for byte (no quote processing, multi-byte characters intact across chunk edges), in order, then None>>
+//@ harness e_byte_reader_long kind=enum props=C05,C07,C20 bound=<<inputs of 1..=3 fields over {a, a field of 140000 bytes, a field of 20000 bytes, empty} separated by NUL, with and without a final NUL, read through the reader's own buffering>> label=<<a field reaches the command whole however long it is: ByteDelimitedArgumentReader never splits, truncates or merges fields>>
+//@ harness e_system_budget kind=enum props=C06,C04 bound=<<environments of 0..=3 variables whose names and values have 0, 1 or 5 bytes (also multi-byte characters)>> label=<<the system limiter's budget is ARG_MAX - 2048 - the bytes execve charges for the environment: every NAME=value string with its terminating NUL>>
+//@ harness e_null_items kind=enum props=C07,C20 bound=<<two items over {a, ' d', 'e ', f<newline>g, -h, 'q' in quotes, tab-led} separated by NUL x plain xargs -0 CMD or xargs -0 -I{} CMD {}; real processes>> label=<<xargs -0 hands every NUL-terminated item to the command as exactly one unmodified argument (leading and trailing blanks, newlines and quotes included), with or without -I>>
 //@ harness e_delimiter kind=enum props=C05 bound=<<every -d operand of 1..=4 symbols over {backslash, 0, 1, 4, 7, 8, x, a, n, t, comma, e-acute}>> label=<<a delimiter operand is rejected or denotes exactly one byte: a single byte stands for itself, \\a \\b \\f \\n \\r \\t \\v \\\\ \\0 for their C meaning, \\xHH for that hex value, \\0ooo (and \\ooo if accepted at all) for that octal value; nothing else is accepted>>
 //@ harness e_batching kind=enum props=C04 thorough_bound=<<inputs of 0..=4 arguments, otherwise as quick>> bound=<<inputs of 0..=2 arguments of 1 or 3 bytes, each followed by a blank, a newline or blank+newline x (-n 1|2, -L 1|2 or neither) x (-s absent, or room for 3, 4 or 8 more bytes than the command itself) x -x on/off; -r on/off for empty input; real processes recording their argv>> label=<<the appended arguments of successive invocations concatenate to the input sequence, every invocation starts with the unchanged command and initial arguments and respects -n, -L (a line ending in a blank continues) and -s (every argument plus one terminator, command included) simultaneously, is maximal, empty input runs once without -r and never with it, an argument that cannot fit alone (or any -s overflow under -x with -n/-L) ends the run with exit status 1>>
 //@ harness e_mode_select kind=enum props=C20 bound=<<every order of every choice of (-I{} or bare -i or neither) x (-n1, -n2 or neither) x (-L1 or not) x input empty or "a b / c", real processes recording their argv>> label=<<when -I/-i, -n and -L are combined the option given last decides the mode (-I with -n 1 and no -L is replace mode in either order); replace mode runs once per line with the whole line substituted and nothing appended and runs nothing for empty input; the other modes append arguments and run once for empty input>>
-//@ harness e_exit_status kind=enum props=C19 thorough_bound=<<every sequence of 0..=4 child outcomes over {exit 0, exit 3, exit 125, exit 255, killed by SIGKILL}, one invocation per input item, real processes>> bound=<<every sequence of 0..=3 child outcomes over {exit 0, exit 3, exit 125, exit 255, killed by SIGKILL}, one invocation per input item (xargs -n1 -a FILE sh -c ...), real processes>> label=<<xargs_main returns 0 iff all exited 0, 123 when some exited 1..125 and all input was processed, 124 at once after an exit 255, 125 at once after a death by signal; no invocation runs after the stopping one>>
+//@ harness e_exit_status kind=enum props=C19 thorough_bound=<<every sequence of 0..=4 child outcomes over {exit 0, exit 3, exit 125, exit 255, killed by SIGKILL}, one invocation per input item, real processes>> bound=<<every sequence of 0..=3 child outcomes over {exit 0, exit 3, exit 125, exit 255, killed by SIGKILL}, one invocation per input item (xargs -n1 -a FILE sh -c ...), and for empty input the single argument-less run exiting 0 or 3; real processes>> label=<<xargs_main returns 0 iff all exited 0, 123 when some exited 1..125 and all input was processed, 124 at once after an exit 255, 125 at once after a death by signal; no invocation runs after the stopping one>>
 //@ harness e_cannot_run kind=enum props=C19 bound=<<commands: missing, file without execute permission, directory, executable file that is no program (ENOEXEC), dangling path through a non-directory (ENOTDIR)>> label=<<a command that cannot be found gives 127, one that exists but cannot be executed gives 126, whatever the errno>>
 //@ harness e_replace kind=enum props=C20 bound=<<replacement strings {} / ab / RR; one initial argument of 1..=3 pieces over {R, first character of R, x}; input lines "l", "a b", a line containing R, and lines ending in a blank or a tab; real processes recording their argv>> label=<<xargs -I R runs the command once per input line with every occurrence of R in the initial argument replaced by the whole line and nothing appended>>
 // Exhaustive native enumeration (tools/kani_lane.py, kind=enum): the REAL readers / xargs_main, compiled by plain rustc, are run on
@@ -101,6 +104,43 @@ mod verif_enum_xargs {
     }
     #[test] fn e_byte_reader() { kani::explore(byte_body) }
 
+    fn byte_long_body() {
+        let n = 1 + pick(3);
+        let mut data: Vec<u8> = Vec::new();
+        let mut want: Vec<Vec<u8>> = Vec::new();
+        for i in 0..n {
+            let f: Vec<u8> = match pick(4) { 0 => b"a".to_vec(), 1 => vec![b'x'; 140000], 2 => vec![b'y'; 20000], _ => Vec::new() };
+            data.extend_from_slice(&f);
+            if i + 1 < n || pick(2) == 1 { data.push(0); }
+            if !f.is_empty() { want.push(f); }
+        }
+        let mut rd = ByteDelimitedArgumentReader::new(std::io::Cursor::new(data), 0);
+        let mut got: Vec<Vec<u8>> = Vec::new();
+        while let Ok(Some(a)) = rd.next() { got.push(a.arg.as_bytes().to_vec()); if got.len() > 8 { break; } }
+        let lens = |v: &Vec<Vec<u8>>| v.iter().map(|f| f.len()).collect::<Vec<_>>();
+        if got != want { eprintln!("  input field lengths expected {:?}, read {:?}", lens(&want), lens(&got)); }
+        assert!(got == want, "a long field was split, truncated or merged");
+    }
+    #[test] fn e_byte_reader_long() { kani::explore(byte_long_body) }
+
+    fn system_budget_body() {
+        let pieces = ["", "A", "VALUE", "\u{e9}"];
+        let n = pick(4);
+        let mut env: HashMap<OsString, OsString> = HashMap::new();
+        let mut charged = 0usize;
+        for i in 0..n {
+            let (k, v) = (format!("N{i}{}", pieces[pick(4)]), pieces[pick(4)].to_string());
+            charged += k.len() + 1 + v.len() + 1; // NAME=value\0, as execve copies it
+            env.insert(k.into(), v.into());
+        }
+        let arg_max = unsafe { uucore::libc::sysconf(uucore::libc::_SC_ARG_MAX) } as usize;
+        let l = MaxCharsCommandSizeLimiter::new_system(&env);
+        let want = arg_max.saturating_sub(2048).saturating_sub(charged);
+        if l.max_chars != want || l.current_size != 0 { eprintln!("  input environment {:?}: budget {} (used {}), expected ARG_MAX {} - 2048 - {} = {}", env, l.max_chars, l.current_size, arg_max, charged, want); }
+        assert!(l.max_chars == want && l.current_size == 0, "system budget does not charge the environment as execve does");
+    }
+    #[test] fn e_system_budget() { kani::explore(system_budget_body) }
+
     fn delimiter_body() {
         let syms = ["\\", "0", "1", "4", "7", "8", "x", "a", "n", "t", ",", "\u{e9}"];
         let n = 1 + pick(4);
@@ -143,7 +183,9 @@ mod verif_enum_xargs {
         let log = d.join("log");
         fs::write(&input, outcomes.iter().map(|&o| format!("{}\n", names[o])).collect::<String>()).unwrap();
         fs::write(&log, "").unwrap();
-        let script = format!("echo \"$1\" >> '{}'; case \"$1\" in K) kill -9 $$;; \"\") exit 0;; *) exit \"$1\";; esac", log.display());
+        // with no input at all the command still runs once, without argument: that run exits with `empty_status`
+        let empty_status = if n == 0 { [0, 3][pick(2)] } else { 0 };
+        let script = format!("echo \"$1\" >> '{}'; case \"$1\" in K) kill -9 $$;; \"\") exit {};; *) exit \"$1\";; esac", log.display(), empty_status);
         let rc = xargs_main(&["xargs", "-n1", "-a", input.to_str().unwrap(), "sh", "-c", &script, "sh"]);
         let ran = fs::read_to_string(&log).unwrap().lines().count();
         // the statement
@@ -154,7 +196,7 @@ mod verif_enum_xargs {
             match o { 0 => {}, 1 | 2 => failed = true, 3 => { want_rc = 124; stopped = true; break; }, _ => { want_rc = 125; stopped = true; break; } }
         }
         if !stopped { want_rc = if failed { 123 } else { 0 }; }
-        if n == 0 { want_ran = 1; want_rc = 0; } // no input: the command still runs once (no -r), with no argument: `exit ""` is exit 0
+        if n == 0 { want_ran = 1; want_rc = if empty_status == 0 { 0 } else { 123 }; } // no input: the command still runs once (no -r)
         let _ = fs::remove_dir_all(&d);
         if (rc, ran) != (want_rc, want_ran) { eprintln!("  input child outcomes: {:?}\n  input xargs exit status {} after {} invocations, expected {} after {}", outcomes.iter().map(|&o| names[o]).collect::<Vec<_>>(), rc, ran, want_rc, want_ran); }
         assert!(rc == want_rc, "exit status is not the documented function of the outcomes");
@@ -263,6 +305,33 @@ mod verif_enum_xargs {
         assert!(rc == 0, "exit status");
     }
     #[test] fn e_mode_select() { kani::explore(mode_select_body) }
+
+    fn null_items_body() {
+        let items: [&[u8]; 7] = [b"a", b" d", b"e ", b"f\ng", b"-h", b"'q'", b"\tt"];
+        let (i1, i2) = (items[pick(7)], items[pick(7)]);
+        let replace = pick(2) == 1;
+        let d = scratch("null");
+        let (inp, log) = (d.join("in"), d.join("log"));
+        let mut data = i1.to_vec(); data.push(0); data.extend_from_slice(i2); data.push(0);
+        fs::write(&inp, &data).unwrap();
+        fs::write(&log, "").unwrap();
+        let script = format!("for a; do printf '%s\\0' \"$a\" >> '{l}'; done; printf '\\001' >> '{l}'", l = log.display());
+        let mut args: Vec<&str> = vec!["xargs", "-0", "-a", inp.to_str().unwrap()];
+        if replace { args.extend_from_slice(&["-I", "{}"]); }
+        args.extend_from_slice(&["sh", "-c", &script, "sh"]);
+        if replace { args.push("{}"); }
+        let rc = xargs_main(&args);
+        let got = fs::read(&log).unwrap();
+        // the statement: every item exactly once, unmodified, in order (one per invocation under -I)
+        let mut want: Vec<u8> = Vec::new();
+        if replace { for it in [i1, i2] { want.extend_from_slice(it); want.push(0); want.push(1); } }
+        else { want.extend_from_slice(i1); want.push(0); want.extend_from_slice(i2); want.push(0); want.push(1); }
+        let _ = fs::remove_dir_all(&d);
+        if got != want || rc != 0 { eprintln!("  input items {:?} {:?}, xargs -0{}\n  input argv recorded {:?} (exit {rc})\n  input expected      {:?}", String::from_utf8_lossy(i1), String::from_utf8_lossy(i2), if replace { " -I{} CMD {}" } else { " CMD" }, String::from_utf8_lossy(&got), String::from_utf8_lossy(&want)); }
+        assert!(got == want, "an item did not reach the command as exactly one unmodified argument");
+        assert!(rc == 0, "exit status");
+    }
+    #[test] fn e_null_items() { kani::explore(null_items_body) }
 
     fn cannot_run_body() {
         use std::os::unix::fs::PermissionsExt;
